@@ -217,7 +217,7 @@ fn delay_case(lens: &[usize], n_in: usize, n_out: usize, wrapper: usize) -> Opti
                         src_val(0, ch, q % LEN, q / LEN)
                     }
                 } else {
-                    SENTINEL
+                    continue; // channels without a ring buffer or an input: not specified by the property
                 };
                 if got != exp {
                     return Some(("node.Delay".into(), format!("{tag}: call {call} channel {ch} sample {tt} = {got}, expected {exp} (delay of exactly {} samples)", lens.get(ch).copied().unwrap_or(0))));
@@ -250,7 +250,7 @@ fn signal_case(n_out: usize, wrapper: usize) -> Option<Bad> {
                 let exp = match ch {
                     0 => n,
                     1 => -n - 0.5,
-                    _ => SENTINEL,
+                    _ => continue, // buffers beyond the frame's channels: not specified by the property
                 };
                 let got = g[t].buffers[ch][tt];
                 if got != exp {
